@@ -3,6 +3,8 @@ package h
 import (
 	"encoding/json"
 	"fmt"
+	"github.com/ethereum/go-ethereum/common"
+	"math/big"
 	"strings"
 	"sync"
 	"testing"
@@ -210,9 +212,33 @@ func genC17(t *rapid.T) c17Case {
 		sc.Invs = []Invocation{{Kind: "call", Origin: EOAAddr, Caller: EOAAddr, To: ContractAddrs[0], Gas: 100000, JP: true}}
 		c.Scenarios = append(c.Scenarios, sc)
 	}
+	// the context pair: two contracts that keep writing Aspect context through 0x66 by
+	// plain CALL and read it back through 0x64 (the precompile instances live in a
+	// package-level table shared by all EVMs; what a call binds must stay its own)
+	for k := 0; k < 2; k++ {
+		a := NewAsm()
+		payload := append(append(append(word32(big.NewInt(64)), word32(big.NewInt(128))...), append(word32(big.NewInt(3)), common.RightPadBytes([]byte("key"), 32)...)...), append(word32(big.NewInt(5)), common.RightPadBytes([]byte("value"), 32)...)...)
+		a.MstoreBytes(0, payload)
+		top, end := a.NewLabel(), a.NewLabel()
+		a.Push(uint64(20 + 10*k))
+		a.Label(top)
+		a.Op(DUP1, ISZERO).Jumpi(end)
+		a.Push(0).Push(0).Push(len(payload)).Push(0).Push(0).Push(0x66).Push(60000).Op(CALL, POP)
+		a.Push(0x20).Push(0x200).Push(23).Push(0).Push(0).Push(0x64).Push(60000).Op(CALL, POP)
+		a.Push(1).Op(SWAP1, SUB).Jump(top)
+		a.Label(end)
+		a.Op(POP, STOP)
+		sc := &Scenario{Fork: []string{"Berlin", "Shanghai"}[k], Note: "context-pair"}
+		sc.Accounts = []Account{{Addr: ContractAddrs[k], Nonce: 1, Code: a.Bytes()}, {Addr: EOAAddr, Balance: hexU64(1 << 40), Nonce: 1}}
+		sc.Invs = []Invocation{{Kind: "call", Origin: EOAAddr, Caller: EOAAddr, To: ContractAddrs[k], Gas: 5_000_000, JP: k == 1}}
+		c.Scenarios = append(c.Scenarios, sc)
+	}
 	for i := 0; i < n; i++ {
 		var sc *Scenario
-		switch uniform(t, 0, 3, "fam") {
+		switch uniform(t, 0, 4, "fam") {
+		case 4:
+			sc = genC14(t)
+			sc.Extra = nil
 		case 0:
 			sc = GenProgScenario(t, ProgCfg{NoArtelaPre: true, MaxSnips: 8})
 		case 1:
